@@ -11,6 +11,7 @@ usage: tools/seed_eval.py <PROP> <seed-name> <dir with patch.diff demo.py notes.
 import json
 import os
 import shutil
+import tempfile
 import subprocess
 import sys
 import time
@@ -52,6 +53,12 @@ def main():
     if meta["confirmed"]:
         rc, out = sh(f"git -C /repo apply {dst}/patch.diff")
         assert rc == 0, out
+        # the runs on the patched tree rewrite evidence/<id>.json: keep the files of the unchanged tree aside
+        keep = tempfile.mkdtemp(prefix="verif_evidence_")
+        for cid in checks:
+            src = os.path.join(ROOT, "evidence", cid + ".json")
+            if os.path.exists(src):
+                shutil.copy(src, keep)
         try:
             for cid in checks:
                 t0 = time.time()
@@ -65,7 +72,12 @@ def main():
             sh("git -C /repo checkout -- .")
             rc, out = sh("git -C /repo status --short")
             assert out.strip() == "", out
-        # evidence files were rewritten by the run on the patched tree: remove replays of the patched tree
+            for cid in checks:
+                src = os.path.join(keep, cid + ".json")
+                if os.path.exists(src):
+                    shutil.copy(src, os.path.join(ROOT, "evidence", cid + ".json"))
+            shutil.rmtree(keep, ignore_errors=True)
+        # remove the replays of the patched tree
         sh(f"rm -rf {ROOT}/replays")
     meta["checks_run"] = results
     meta["caught_by"] = [c for c, r in results.items() if r["exit"] == 1 and r["violations"] > 0]
